@@ -15,7 +15,7 @@ use biodivine_hctl_model_checker::evaluation::LabelToSetMap;
 use biodivine_hctl_model_checker::evaluation::algorithm::{compute_steady_states, eval_node};
 use biodivine_hctl_model_checker::evaluation::eval_context::EvalContext;
 use biodivine_hctl_model_checker::model_checking as mc;
-use biodivine_hctl_model_checker::preprocessing::parser::parse_and_minimize_extended_formula;
+use biodivine_hctl_model_checker::preprocessing::parser::{parse_and_minimize_extended_formula, parse_and_minimize_hctl_formula};
 use biodivine_hctl_model_checker::preprocessing::utils::validate_and_divide_wild_cards;
 use biodivine_lib_param_bn::symbolic_async_graph::GraphColoredVertices;
 use std::collections::HashMap;
@@ -29,7 +29,7 @@ pub fn def() -> CheckDef {
                state variable, inside / outside / across restricted-domain scopes and across formulae: the batch result at every position \
                must be the identical BDD as (a) the single evaluation of that formula, (b) its evaluation with sharing disabled (eval_node \
                with an empty duplicate table), (c) the same position after permuting / repeating the batch, (d) a second run, (e) a run with a \
-               recording progress observer, and the sanitised batch must equal the sanitised singles. Non-trivial: the batch produced at \
+               recording progress observer, and the sanitised batch must equal the sanitised singles; (g) for plain batches the non-extended batch entry points (formulae / trees / observer variant, raw and sanitised) must return the same sets position by position. Non-trivial: the batch produced at \
                least one cache hit (hook event) and its results are not all equal; distinct by (network, batch, sets).",
         assumptions: &[
             "the no-sharing baseline uses the public eval_node with an EvalContext whose duplicate table holds only the wild-card preload (counters raised so that nothing is evicted)",
@@ -49,6 +49,7 @@ pub fn def() -> CheckDef {
                 ("ev_cache_evict", 100 * m),
                 ("ev_cache_hit_wild_card", 100 * m),
                 ("batches_with_domains", 200 * m),
+                ("plain_batch_entry_point_runs", 2000 * m),
             ]
         },
         run,
@@ -374,6 +375,106 @@ fn run(rng: &mut Rng, idx: u64, tier: Tier) -> CaseOut {
         }
     }
     let _ = drain_events(&mut out);
+
+    // (g) plain batches: the non-extended batch entry points (texts and trees, raw and sanitised)
+    // must return, position by position, what the extended batch returned
+    if !extended {
+        let trees: Result<Vec<_>, String> = texts.iter().map(|t| parse_and_minimize_hctl_formula(sys.graph.symbolic_context(), t)).collect();
+        let trees = match trees {
+            Ok(t) => t,
+            Err(e) => {
+                out.violate("error on a valid closed formula", format!("parse_and_minimize_hctl_formula Err({e})"), detail("plain parse", vec![]));
+                return out;
+            }
+        };
+        let trees2 = trees.clone();
+        let mut observed_plain = 0u64;
+        let runs: Vec<(&str, Call<Vec<GraphColoredVertices>>)> = vec![
+            ("model_check_multiple_formulae_dirty", call(|| mc::model_check_multiple_formulae_dirty(refs.clone(), &sys.graph))),
+            ("model_check_multiple_trees_dirty", call(|| mc::model_check_multiple_trees_dirty(trees, &sys.graph))),
+            (
+                "_model_check_multiple_formulae_dirty with an observer",
+                call(|| {
+                    mc::_model_check_multiple_formulae_dirty(refs.clone(), &sys.graph, &mut |_: &GraphColoredVertices, _: &str| {
+                        observed_plain += 1;
+                    })
+                }),
+            ),
+        ];
+        for (name, res) in runs {
+            match res {
+                Call::Ok(r) => {
+                    if r.len() != texts.len() {
+                        out.violate("wrong number of results", format!("{name}: {} results for {} formulae", r.len(), texts.len()), detail(name, vec![]));
+                        return out;
+                    }
+                    for i in 0..texts.len() {
+                        if r[i] != batch_res[i] {
+                            let other = r[i].clone();
+                            differ!("plain batch entry point differs", i, other, name);
+                        }
+                    }
+                    out.add("comparisons", texts.len() as u64);
+                    out.count("plain_batch_entry_point_runs");
+                }
+                Call::Err(e) => {
+                    out.violate("error on a valid batch", format!("{name}: Err({e})"), detail(name, vec![]));
+                    return out;
+                }
+                Call::Panic(p) => {
+                    out.violate(&crate::libg::panic_signature(&p), format!("{name} panicked: {p}"), detail(name, vec![]));
+                    return out;
+                }
+            }
+        }
+        out.add("observer_messages", observed_plain);
+        let san_runs: Vec<(&str, Call<Vec<GraphColoredVertices>>)> = vec![
+            ("model_check_multiple_formulae", call(|| mc::model_check_multiple_formulae(refs.clone(), &sys.graph))),
+            ("model_check_multiple_trees", call(|| mc::model_check_multiple_trees(trees2, &sys.graph))),
+        ];
+        for (name, res) in san_runs {
+            match res {
+                Call::Ok(r) => {
+                    if r.len() != texts.len() {
+                        out.violate("wrong number of results", format!("{name}: {} results for {} formulae", r.len(), texts.len()), detail(name, vec![]));
+                        return out;
+                    }
+                    for (i, t) in texts.iter().enumerate() {
+                        match run_ep(Ep::Formula, t, &sys, &ctx) {
+                            Call::Ok(single) if single.as_bdd() == r[i].as_bdd() => {}
+                            Call::Ok(_) => {
+                                out.violate(
+                                    "sanitised batch != sanitised single",
+                                    format!("{name}: formula #{i} `{t}`: sanitised batch result differs from model_check_formula"),
+                                    detail(name, vec![("position", J::Int(i as i64))]),
+                                );
+                                return out;
+                            }
+                            Call::Err(e) => {
+                                out.violate("error on a valid closed formula", format!("model_check_formula Err({e}) on `{t}`"), detail(name, vec![]));
+                                return out;
+                            }
+                            Call::Panic(p) => {
+                                out.violate(&crate::libg::panic_signature(&p), format!("model_check_formula panicked on `{t}`: {p}"), detail(name, vec![]));
+                                return out;
+                            }
+                        }
+                    }
+                    out.add("comparisons", texts.len() as u64);
+                    out.count("plain_batch_entry_point_runs");
+                }
+                Call::Err(e) => {
+                    out.violate("error on a valid batch", format!("{name}: Err({e})"), detail(name, vec![]));
+                    return out;
+                }
+                Call::Panic(p) => {
+                    out.violate(&crate::libg::panic_signature(&p), format!("{name} panicked: {p}"), detail(name, vec![]));
+                    return out;
+                }
+            }
+        }
+        let _ = drain_events(&mut out);
+    }
     let all_equal = batch_res.windows(2).all(|w| w[0] == w[1]);
     out.nontrivial = had_hit && !(all_equal && batch_res.len() > 1);
     if out.nontrivial {
